@@ -412,10 +412,8 @@ func init() {
 				}
 				return
 			}
-			r := core.NewRand(c.P.Seed, "C16in", idx)
-			src := gen.Hostile(r, nil)
-			ver := gen.VersionsAll[r.Intn(len(gen.VersionsAll))]
-			c16Input(c, src, ver)
+			pc := genParseCase(c.P.Seed, "C16in", idx, 30)
+			c16Input(c, pc.Src, pc.Ver)
 		},
 		RunWitness: func(c *core.Ctx, w core.Witness) { c16Input(c, w.Src, w.Ver) },
 	})
